@@ -16,6 +16,7 @@ func init() {
 		explanation: "Structural necessary conditions of 'one response per request, with its id, in arrival order', decided for every path of the receive loops, dispatcher, workers and controller: exhaustive dispatch of every packet type makePacket can build (dispatch simulation of the type switches); exactly one readyPacket per dispatched request on every CFG path; every response id and order id traces (value provenance, closed over call sites) to the request being answered; order-id counter, sort, head-match and single-sender discipline of the packet manager; reply types legal per request type; responses not abandoned at shutdown. Decides the shape of the mechanism, not a run of it.",
 		run:         runC02,
 		assumptions: []string{
+			"fewer than 2^32 requests per connection (the 32-bit order counter wraps: a pre-wrap request still in flight is then overtaken; demonstrated only by presetting the counter)",
 			"user handlers return (a handler that blocks forever withholds its response by definition)",
 			"the transport's Write does not reorder bytes",
 		},
